@@ -218,7 +218,7 @@ def _gen_c(ctx):
     for n_in in range(1, 9):
         for n_out in range(1, 9):
             combos.append((n_in, n_out))
-    rounds = 1 if quick else 12
+    rounds = 1 if quick else 18
     for _ in range(rounds):
         for n_in, n_out in combos:
             ins = [{"prev": rb(32) + J(rnd.choice([0, 1, 2, 0xFFFFFFFF, rnd.randrange(2 ** 32)]).to_bytes(4, "little")),
